@@ -8,7 +8,7 @@ import sim_common
 
 def run(tier, seed):
     chk = vlib.Check("C03", tier, seed)
-    n = 90 if tier == "quick" else 1200
+    n = 90 if tier == "quick" else 800
     cases = sim_common.make_cases("C03", tier, seed, n, variants=(0, 1, 0, 2, 0, 1), fp_levels=(1, 10, 2, 3, 10), sizes=(0, 0, 1), burst=5, stateless=9,
                                   gvts=[0, 0, 20, 300, 0, 1000, 50], ckpts=[1, 2, 3, 1, 5, 0, 2, 7])
     sim_common.run_sim_cases(chk, cases, timeout=300)
